@@ -1,3 +1,4 @@
 pub mod grammar;
 pub mod labels;
 pub mod reflex;
+pub mod vars;
